@@ -41,7 +41,7 @@ MODULES = ["Spydr.Verilog.Model", "Spydr.Verilog.ModelElab", "Spydr.Verilog.Mode
            "Spydr.Verilog.Spec",
            "Spydr.Verilog.Lemmas", "Spydr.Verilog.LemmasEmit", "Spydr.Verilog.LemmasOrder", "Spydr.Verilog.LemmasElab",
            "Spydr.Verilog.Props.C06",
-           "Spydr.Verilog.Props.C04",
+           "Spydr.Verilog.Props.C04Emit", "Spydr.Verilog.Props.C04",
            "Spydr.Verilog.RoundTripState", "Spydr.Verilog.RoundTripConn", "Spydr.Verilog.RoundTripInst",
            "Spydr.Verilog.RoundTripBody", "Spydr.Verilog.RoundTripHeader", "Spydr.Verilog.RoundTripDecls",
            "Spydr.Verilog.RoundTripModule", "Spydr.Verilog.RoundTripDesign", "Spydr.Verilog.RoundTripShape",
@@ -692,6 +692,8 @@ def shard_c06(seed, idx, n_cases, deadline):
             res.dist("designs-elaborated-by-the-model")
             corr_lex(res, drv, text, "generated text", pack(d, text))
             corr_c06_parse(res, drv, d, text)
+            reach(res, drv, {"fn": "fragment06", "text": text})
+            res.dist("theorem_fragment:reader_structWF:in")      # holds for ANY text the reader accepts or refuses
     finally:
         drv.close()
         impl.close()
@@ -1251,6 +1253,22 @@ def corr_lex(res, drv, text, what, inp):
     res.dist("lexed:" + what)
 
 
+def reach(res, drv, req):
+    """reach of the theorems (evidence only, no verdict depends on it): the driver evaluates the theorems' own decidable
+    fragment predicates on this case; `in` = inside, otherwise the first failing clause"""
+    try:
+        o = drv.ask(req)
+    except Exception:                                         # noqa: BLE001
+        res.dist("theorem_fragment:driver-did-not-answer")
+        return
+    if "rejected" in o or "error" in o:
+        res.dist("theorem_fragment:input-rejected-by-the-model's-parser")
+        return
+    for thm, v in o.items():
+        inside, label = v
+        res.dist("theorem_fragment:%s:%s" % (thm, "in" if inside else label))
+
+
 def corr_c04_text(res, drv, nl, combo_opts, text2, known_sig, inp):
     """the whole written file, token by token: Lean composeV against the composer's output"""
     dlist, wb, dp = combo_opts
@@ -1379,6 +1397,7 @@ def shard_c04(seed, idx, n_cases, deadline, tier):
             ksig = known or (trig[0] if trig else None)
             corr_c04_writer(res, drv, impl, nl, v1, ksig, inp)
             if not ext:
+                reach(res, drv, {"fn": "fragment04", "net": wnet_of(nl)})
                 corr_c04_order(res, drv, nl, inp)
                 for opts, text2, raised in texts:
                     if opts is not None and (text2 is not None or raised):
